@@ -85,7 +85,8 @@ class Type:
                 else:
                     return True
             else:
-                return True
+                import math
+                return math.isfinite(value)
         if self._type == BuiltinType.STRING and isinstance(value, str):
             return True
         return False
